@@ -513,6 +513,13 @@ def prim_paths(n, sel, path=''):
   return out
 
 
+def dna_eq(a, b):
+  try:
+    return bool(a == b)
+  except Exception:  # pylint: disable=broad-except
+    return False   # DNA.__eq__ raises on structurally different trees
+
+
 def to_dna(dn):
   v, ch = dn
   return pg.DNA(v, [to_dna(c) for c in ch])
@@ -1088,7 +1095,7 @@ def check_template(rec, root, sel, rnd, cap, deep_checks=6):
         continue
       if dist:
         rec.case(f'encode.{label}/{sig}' if esig is sig else f'encode/{esig}', key,
-                 enc == dna and dna == enc,
+                 dna_eq(enc, dna) and dna_eq(dna, enc),
                  f'encode gave {enc!r}, expected {dna!r}',
                  wpre + f'assert t.encode({vs_}) == d, t.encode({vs_})')
       else:
